@@ -16,6 +16,7 @@ RULE = (
     "(zero mean, power) with exact chi-square / Bernstein acceptance intervals at level 1e-9/8000 on N=1e6 (quick) / 4e6 (thorough) samples. Distinct = configuration; non-trivial = "
     "a configured power or SNR with a random input."
     " Added after the seeded-fault rounds: dim/keepdim forms of calculate_snr / estimate_signal_power / add_noise_for_snr against per-slice references; one channel object across real/complex/float64/reshaped inputs must answer like a fresh object under the same seed."
+    " Round 5: a used channel whose avg_noise_power / snr_db attribute is re-assigned answers exactly like a fresh object built with that value (same seed)."
 )
 ASSUMPTIONS = [
     "per-test level alpha = 1e-9 / 8000 (union bound over at most 8000 planned tests)",
@@ -23,7 +24,7 @@ ASSUMPTIONS = [
     "SNR tools are compared where noise power >> float32 eps (the metric adds eps to the denominator)",
     "the global torch generator is seeded per case: every rejection replays",
 ]
-REQUIRED = ["supplied noise added verbatim", "conversions", "SNR tools agree", "same-seed scaling", "noise mean = 0", "noise power = configured", "SNR = configured"]
+REQUIRED = ["supplied noise added verbatim", "conversions", "SNR tools agree", "same-seed scaling", "re-configured object = fresh object", "noise mean = 0", "noise power = configured", "SNR = configured"]
 JOBS = {"quick": 8, "thorough": 16}
 TIMEOUT = {"quick": 900, "thorough": 3600}
 
@@ -296,6 +297,23 @@ def run_unit(ctx, u):
                 # measuring the channel output with the library's own tools returns the configured value
                 v = float(calculate_snr(base if not torch.is_complex(y) or torch.is_complex(base) else torch.complex(base, torch.zeros_like(base)), y))
                 ctx.check(abs(v - val) < 0.1, "SNR tools agree", f"{cfgk}|SNR tools agree|calculate_snr(x, channel(x)) != configured", configured=val, measured=v)
+            # a long-lived object whose public setting is re-assigned answers like a fresh object built with that setting
+            attr = "avg_noise_power" if mode == "power" else "snr_db"
+            try:
+                old = make_channel(ch, mode, values[(values.index(val) + 1) % len(values)])
+                if hasattr(old, attr) and isinstance(getattr(old, attr), (int, float)):
+                    transmit(ch, old, x)
+                    setattr(old, attr, val)
+                    s = seed_for("reconf", ch, cplx, val, ip)
+                    torch.manual_seed(s)
+                    _, ya = transmit(ch, old, x)
+                    torch.manual_seed(s)
+                    _, yb = transmit(ch, make_channel(ch, mode, val), x)
+                    ctx.check(ya.dtype == yb.dtype and bool(torch.equal(ya, yb)), "re-configured object = fresh object", f"{cfgk}|re-configured object = fresh object|differs under the same seed", value=val, input_power=ip, attribute=attr)
+                else:
+                    ctx.skip(f"{attr} is not a plain attribute")
+            except Exception as e:  # noqa: BLE001
+                ctx.violation(f"{cfgk}|re-configured object = fresh object|raised:{type(e).__name__}", value=val, error=str(e)[:200])
             # same-seed scaling relation between two configured values
             if mode == "power":
                 v2 = val * 37.0
